@@ -64,6 +64,12 @@ func podSpec(wl *Workload) corev1.PodSpec {
 	return ps
 }
 
+// ownedPodName: bare pods of a controller carry a suffix that is unique in the cluster (as the real, random ones are):
+// same-named workloads of two namespaces do not get same-named pods this way, while synthesised replicas (name-1) do.
+func ownedPodName(wl *Workload, i int) string {
+	return fmt.Sprintf("%s-%sx%dz", wl.Name, wl.Ns, i)
+}
+
 // Doc is one rendered manifest document.
 type Doc struct {
 	Kind string
@@ -137,7 +143,7 @@ func workloadDocs(w *World, wl *Workload) []Doc {
 		ctl := true
 		okind := ownedKind(wl.Kind)
 		for i := 0; i < n; i++ {
-			pm := metav1.ObjectMeta{Name: fmt.Sprintf("%s-x%dz", wl.Name, i), Namespace: ns, Labels: wl.Labels,
+			pm := metav1.ObjectMeta{Name: ownedPodName(wl, i), Namespace: ns, Labels: wl.Labels,
 				OwnerReferences: []metav1.OwnerReference{{APIVersion: "apps/v1", Kind: okind, Name: wl.Name, UID: "u", Controller: &ctl}}}
 			if strings.HasPrefix(wl.Kind, "Owned2:") {
 				// a non-controller reference (e.g. a scheduler's pod group) listed before the controller one
